@@ -1587,6 +1587,7 @@ func cmdC19Script(seed uint64, n int, dir string) {
 		}
 	}
 	c19VariadicMethod(st)
+	c19MethodParams(st, r, 40)
 	st.Extra["hazards"] = c19Hazards()
 	st.write(dir + "/C19_script_stats.json")
 }
@@ -1634,5 +1635,89 @@ func run() { t := &T{}; F(3); t.M(3) }
 		st.mismatchG("script:variadic-method-element-type", map[string]any{"group": "script:variadic-method-element-type", "script": src,
 			"expected": []string{want, want}, "observed": got, "error": fmt.Sprint(err), "escaped": escaped,
 			"what": "F(3) and t.M(3) with rest ...float64 must both see rest[0] = float64 3 (rest[0]/2 = 1.5)"})
+	}
+}
+
+// c19MethodParams: native oracle for bound script methods with 0..4 explicit parameters (and variadic ones with
+// 0..2 fixed parameters): every parameter arrives in its own position, through the host API (GetAttr + VM.Func,
+// the receiver bound by newMethod) and through script calls.  Expected values are computed here.
+func c19MethodParams(st *stats, r *rng, n int) {
+	src := `package main
+type T struct { k int }
+func (t *T) M0() int { return t.k }
+func (t *T) M1(a int) int { return t.k*10 + a }
+func (t *T) M2(a int, b int) int { return (t.k*10+a)*10 + b }
+func (t *T) M3(a int, b int, c int) int { return ((t.k*10+a)*10+b)*10 + c }
+func (t *T) M4(a int, b int, c int, d int) int { return (((t.k*10+a)*10+b)*10+c)*10 + d }
+func (t *T) S3(a string, b string, c string) string { return a + "|" + b + "|" + c }
+func (t *T) V1(a int, rest ...int) int { s := t.k*10 + a; for _, x := range rest { s = s*10 + x }; return s }
+func (t *T) V2(a int, b int, rest ...int) int { s := (t.k*10+a)*10 + b; for _, x := range rest { s = s*10 + x }; return s }
+var G = &T{k: 7}
+func viaScript(a int, b int, c int, d int) int { return G.M4(a, b, c, d) + G.M2(a, b) }
+`
+	vm := g.New()
+	fs := fstest.MapFS{"main/main.go": &fstest.MapFile{Data: []byte(src)}}
+	if err := vm.Load(fs, "main"); err != nil {
+		st.mismatchG("native:method-params", map[string]any{"group": "native:method-params", "what": "load failed", "error": err.Error(), "script": src})
+		return
+	}
+	recv := vm.Get("main.G")
+	fold := func(k int, xs ...int) int32 {
+		s := int32(k)
+		for _, x := range xs {
+			s = s*10 + int32(x)
+		}
+		return s
+	}
+	for c := 0; c < n; c++ {
+		xs := []int{1 + r.intn(8), 1 + r.intn(8), 1 + r.intn(8), 1 + r.intn(8), 1 + r.intn(8)}
+		type tc struct {
+			name string
+			args []g.Value
+			want string
+		}
+		iv := func(k int) []g.Value {
+			var a []g.Value
+			for _, x := range xs[:k] {
+				a = append(a, g.Int(x))
+			}
+			return a
+		}
+		strs := []string{"a", "bb", "c"}
+		cases := []tc{
+			{"M0", iv(0), fmt.Sprint(fold(7))}, {"M1", iv(1), fmt.Sprint(fold(7, xs[:1]...))}, {"M2", iv(2), fmt.Sprint(fold(7, xs[:2]...))},
+			{"M3", iv(3), fmt.Sprint(fold(7, xs[:3]...))}, {"M4", iv(4), fmt.Sprint(fold(7, xs[:4]...))},
+			{"S3", []g.Value{g.String(strs[0]), g.String(strs[1]), g.String(strs[2])}, "a|bb|c"},
+			{"V1", iv(1), fmt.Sprint(fold(7, xs[:1]...))}, {"V1", iv(3), fmt.Sprint(fold(7, xs[:3]...))},
+			{"V2", iv(2), fmt.Sprint(fold(7, xs[:2]...))}, {"V2", iv(5), fmt.Sprint(fold(7, xs[:5]...))},
+		}
+		for _, k := range cases {
+			var out []g.Value
+			var err error
+			escaped := c19Guard(func() { out, err = vm.Func(recv.GetAttr(k.name), 1, k.args...) })
+			got := ""
+			if len(out) == 1 {
+				got = out[0].String()
+			}
+			st.add("bound method "+k.name, fmt.Sprintf("%s/%d", k.name, len(k.args)))
+			if escaped != "" || err != nil || got != k.want {
+				st.mismatchG("native:method-params", map[string]any{"group": "native:method-params", "script": src,
+					"call": fmt.Sprintf("vm.Func(G.GetAttr(%q), 1, %v)", k.name, xs[:len(k.args)]), "expected": k.want, "observed": got, "error": fmt.Sprint(err), "escaped": escaped,
+					"what": "a bound method called from the host must receive every explicit parameter in its own position"})
+			}
+		}
+		var out []g.Value
+		var err error
+		escaped := c19Guard(func() { out, err = vm.Call("main.viaScript", 1, iv(4)...) })
+		want := fmt.Sprint(fold(7, xs[:4]...) + fold(7, xs[:2]...))
+		got := ""
+		if len(out) == 1 {
+			got = out[0].String()
+		}
+		if escaped != "" || err != nil || got != want {
+			st.mismatchG("native:method-params", map[string]any{"group": "native:method-params", "script": src,
+				"call": fmt.Sprintf("viaScript(%v)", xs[:4]), "expected": want, "observed": got, "error": fmt.Sprint(err), "escaped": escaped,
+				"what": "a method called from a script must receive every explicit parameter in its own position"})
+		}
 	}
 }
